@@ -52,7 +52,11 @@ func (h *lexHarness) Gen(r *Rand, tier string, clean bool) any {
 	if r.Chance(0.08) {
 		// the printed form of one value, alone: it has to come out as one token carrying exactly that text
 		var txt string
-		switch r.Intn(6) {
+		switch r.Intn(7) {
+		case 6:
+			// values the vocabulary does not hold: text with line breaks and tabs inside, ids with backslashes (also last)
+			txt = []string{"\"line one\nline two\"^^type:text", "\"tab\there\"^^type:text", "\"a\r\nb\"^^type:text", `/folder<C:\Users\joe\>`, `/u<a\>`, `/u<\a\b>`,
+				`"back\slash"@[]`, "\"multi\nline\"@[2006-01-02T15:04:05Z]"}[r.Intn(8)]
 		case 0:
 			txt = V.Nodes[r.Intn(len(V.Nodes))].String()
 		case 1:
